@@ -330,6 +330,8 @@ class P(Prop):
             "The oracle finds the marker cells in the case's own data by the exact name. Every split() case also runs on the model's "
             "track (splitTrackU: the name looked up in the table, == 1 on the cell) and must agree with the loop on the marker vector; "
             "every segmentation()+split() case runs segseqsplitv (split reading the written column back by name). "
+            "SESSIONS: every split() is called twice on the same track (the oracle judges the second result too when it differs); with a "
+            "previous segmentation() the track is also split on the earlier marker before the call under test. "
             "HISTORY: about half of the segmentation cases run on a track whose output feature already exists (left by a previous "
             "segmentation() with other thresholds/mode, created by the user with 0/1/2/0.5/NaN values, or all 1s), or write the marker into one "
             "of the tested features; other features (incl. names like #mark, #0, marker, out), uid, tid, base vary; the model replays the whole "
@@ -1047,7 +1049,14 @@ class P(Prop):
         pieces, uids, content = self.pieces_of(coll, names, snap)
         if content is None and self.snapshot(t) != (names, snap):
             content = "split() modified the source track"
-        return {"pieces": pieces, "uids": uids, "content": content}
+        out = {"pieces": pieces, "uids": uids, "content": content}
+        # the same call once more on the same track (state left by the first call on the track, its observations or the
+        # module): the statement holds for every call, so the oracle is run on the second result too when it differs
+        coll2 = self.S.split(t, source) if limit == "default" else self.S.split(t, source, limval(limit))
+        pieces2, _u, content2 = self.pieces_of(coll2, names, snap)
+        if pieces2 != pieces or content2 != content:
+            out["again"] = {"pieces": pieces2, "content": content2}
+        return out
 
     # ---------------------------------------------------------------- implementation
     def mode_const(self, m):
@@ -1071,6 +1080,8 @@ class P(Prop):
             pre = case.get("pre")
             if pre and pre["type"] == "seg":
                 self.S.segmentation(t, names, outname, [tokval(x) if istime(x) else fval(x) for x in pre["ths"]], self.mode_const(pre["mode"]))
+                if case.get("split"):
+                    self.S.split(t, outname)        # a split() on the earlier marker, result dropped: it must leave nothing behind
             afs_form, ths_form = self.forms(case)
             self.S.segmentation(t, names[0] if afs_form == "str" else names, outname,
                                 ths[0] if ths_form == "scalar" else ths, self.mode_const(case["mode"]))
@@ -1286,6 +1297,14 @@ class P(Prop):
 
     # ---------------------------------------------------------------- oracle (transfer)
     def spec(self, case, out):
+        e = self.spec1(case, out)
+        if e is None and isinstance(out, dict) and out.get("again"):
+            e = self.spec1(case, dict(out, pieces=out["again"]["pieces"], content=out["again"]["content"], again=None))
+            if e:
+                return "second split() of the same track: " + e
+        return e
+
+    def spec1(self, case, out):
         if not self.in_domain(case):
             return None
         k = case["kind"]
